@@ -590,6 +590,15 @@ fn judge(st: &mut Stats, sc: &Scenario, outs: &[Outcome], seed: u64) {
         }
     }
     for o in outs {
+        // a listener that could not be set up (its port, found free a moment earlier, was taken by another process of a parallel
+        // shard before the client bound it): the client ends at once with RemoteHandlerExited, nothing of the script has happened.
+        // That is a property of the harness's port allocation, not of the client under a connection loss: no verdict.
+        if let Some((dt, e)) = &o.exit {
+            if e == "RemoteHandlerExited" && *dt < Duration::from_millis(100) && o.attempts.len() <= 1 && matches!(&o.conv, None | Some(Err(_))) {
+                st.inconclusive.push(format!("c19 [{}]: the client could not set up its listeners (port taken at start-up); run discarded", sc.name));
+                continue;
+            }
+        }
         // counts and exit
         match sc.expect_exit {
             Some("MaxRetryCountReached") => {
@@ -666,7 +675,18 @@ fn judge(st: &mut Stats, sc: &Scenario, outs: &[Outcome], seed: u64) {
                         st.inconclusive.push(format!("c19 [{}]: conversation timed out without quiescence witness", sc.name));
                     }
                 }
-                Err(e) => st.violation(Violation { signature: format!("request-dropped|{}", sc.name), detail: format!("[{}] the local connection accepted during the outage failed: {e}", sc.name), replay: replay(o) }),
+                Err(e) => {
+                    // a conversation that was accepted and served over a working tunnel which was then cut under it is broken by
+                    // the cut (as a direct connection would be): the statement speaks of connections accepted while the tunnel is down
+                    let started = sc.converse_at.map(|ms| o.t0 + Duration::from_millis(ms));
+                    let margin = Duration::from_millis(30);
+                    let on_doomed = started.is_some_and(|t| o.attempts.iter().any(|a| matches!(a.2, Act::ForwardCut(_) | Act::ForwardWsClose(_)) && a.1 <= t + margin && a.3.is_none_or(|end| t <= end + margin)));
+                    if on_doomed {
+                        st.count("conversations_started_on_a_connection_that_was_then_cut", 1);
+                    } else {
+                        st.violation(Violation { signature: format!("request-dropped|{}", sc.name), detail: format!("[{}] the local connection accepted during the outage failed: {e}", sc.name), replay: replay(o) });
+                    }
+                }
             }
         }
         // orderly close: reconnect by itself, UDP flows again
